@@ -207,8 +207,9 @@ class Attribute(_BaseAttribute):
         if key in self._data:
             return self._data[key]
         if self.elemsize>1:
-            # a fresh vector: the default object must not be shared between all unset entries
-            return Vec(np.copy(self.default_value))
+            # a fresh vector (the default object must not be shared between all unset entries) of the attribute's size,
+            # also when the default was given as a single value
+            return Vec(np.full(self.elemsize, self.default_value, dtype=self.type.dtype))
         return self.default_value
 
     def __setitem__(self, key, value):
